@@ -16,18 +16,22 @@ COMMON_NOTE = ("Trusted base: compat layer sophtverif/compat.py (pystencils 1.4-
 CHECKS = {
     "C03": (True, "Hypothesis stateful machine (solve/vector_solve/scribble/impulse histories) vs O(N^2) direct Green's-function convolution oracle",
             "Generated solver histories on one solver object (all shapes 2..20/2..9 quick, 2..48/2..16 thorough, both "
-            "precisions, thread counts) compared after every solve with an independent float64 direct aperiodic "
+            "precisions, thread counts, domain lengths 1e-8..1e4, one long axis) compared after every solve with an independent float64 direct aperiodic "
             "convolution; reciprocity/no-image relations on impulses; bit-wise vector==3 scalar solves.",
             "3/C03", ""),
     "C01": (True, "Hypothesis-generated simulator configurations/states vs independent float64 numpy reference of the documented operator sequence (differential oracle)",
             "Generated (configuration, grid, state, dt) cases for all three simulator classes run through the public "
             "constructor + time_step and compared after each of 1-2 steps with an independent reference implementation "
-            "with a stated norm-wise tolerance; exact time update and bit-wise zero forcing field.",
-            "3/C01", ""),
+            "with a stated norm-wise tolerance; exact time update and bit-wise zero forcing field. Domain includes inviscid "
+            "(nu = 0) runs, axis-aligned free streams, field amplitudes 2^-24..2^16, domain sizes over six decades, grids with one "
+            "long axis, dt taken from the simulator's own compute_stable_timestep, constructor calls with default arguments "
+            "omitted, and histories of two live simulators with different parameters (interleaved steps, re-stated fields, queries).",
+            "3/C01, 12", ""),
     "C04": (True, "Hypothesis: grid-sum invariant on real simulators with compact fields + exact-rational face-flux equality and block-sum identities on captured stencil IR",
             "Sum invariants of real time steps for generated compactly supported states with arbitrary velocity; "
             "cell-level conservation form decided in exact rational arithmetic on the symbolic stencils for every "
-            "upwind branch pattern including ties.", "3/C04", ""),
+            "upwind branch pattern including ties. The step under test may be preceded by an earlier step of the same "
+            "object and by public queries (stable time step, divergence norm); dt optionally from the simulator.", "3/C04, 12", ""),
     "C05": (True, "Hypothesis: exact-rational evaluation of every captured stencil on drawn polynomials vs analytic derivatives; compiled wrappers on sampled polynomials",
             "Randomized polynomial-identity testing (rational coefficients, spacings, prefactors, cells) of all 31 "
             "differential stencils against an independent polynomial class, plus compiled public wrappers on "
@@ -36,46 +40,57 @@ CHECKS = {
     "C12": (True, "Hypothesis: exact-rational composition of captured stencils on 5^d blocks (identities as equalities of rationals) + compiled divergence norm on generated simulator states",
             "Discrete identities (div curl = 0, div-free recovered velocity, wide Laplacian, update == library curl, "
             "penalised == forcing of difference) tested as exact equalities on drawn rational blocks; compiled "
-            "counterpart through the public 3-D simulator.", "3/C12", ""),
+            "counterpart through the public 3-D simulator, and the same identities on the compiled public kernels with "
+            "integer-valued data (exact in floating point) on arbitrary memory layouts (strided, component-last, sub-block, Fortran).",
+            "3/C12, 12", ""),
     "C13": (True, "Hypothesis over a registry of all 50 public kernel generators x options x shapes x memory layouts, sentinel-prefilled outputs vs closed-form numpy references",
             "Every generator/option entry gets its own Hypothesis run (stratified): documented value inside the documented "
             "region within a stated tolerance, bit-identity outside it, inputs and memory around strided/sub-block/transposed "
-            "views bit-identical; enumeration that every public generator has an entry.", "3/C13", ""),
+            "views bit-identical (sign of zero aside); enumeration that every public generator has an entry; kernels of one operator "
+            "family generated in a drawn ORDER in a fresh process (process-wide generator state); scalar arguments incl. exact 0/+-1; "
+            "shapes with one long axis.", "3/C13, 12", ""),
     "C15": (True, "Exhaustive IR dependence rules over every generated kernel + Hypothesis scenarios under a call-site aliasing monitor with harness-owned permuted replay + bit-identity across drawn OpenMP thread counts",
             "Clause (a) enumerates all kernels generated in the run (exhaustive for that finite set); clause (b) inspects every "
             "kernel invocation of generated simulator/solver/filter/RK/interaction scenarios for output/input aliasing and replays "
             "it cell by cell in different orders; clause (c) samples real thread counts {1,2,3,5,8,16}.", "3/C15", ""),
     "C11": (True, "Hypothesis-generated shapes/spacings/right-hand sides vs an independent discrete Neumann operator (residual + zero-mean oracle)",
             "Generated solver instances (2-D, 3-D scalar and vector) over shapes 2..24 (quick) / 2..64 (thorough): the returned "
-            "field must be real, zero-mean and satisfy the independently coded Neumann finite-difference operator up to 50*n*eps.",
-            "3/C11", ""),
+            "field must be real, zero-mean and satisfy the independently coded Neumann finite-difference operator up to "
+            "64 (n^2/10 + n) eps; a third of the cases on elongated grids (one axis 33..160 / 33..96).",
+            "3/C11, 12", ""),
     "C16": (True, "Hypothesis-generated simulators/velocities/viscosities/CFL: inequality oracles on compute_stable_timestep; discrete maximum principle on the diffusion kernels",
             "All three simulator classes with generated velocity fields (zero, constant, spikes up to 2^20, noise), viscosities "
             "over 8 decades and CFL numbers: both documented limits, linearity in the prefactor, positivity; diffusion kernels "
-            "at and below the limit must be convex averagings.", "3/C16", ""),
+            "at and below the limit must be convex averagings. Includes nu = 0, the balanced regime where both limits cross, "
+            "thread counts 1..7, the maximum in the first/last cells of the flattened array, query histories on one simulator.",
+            "3/C16, 12", ""),
     "C19": (True, "Stratified Hypothesis over every stabilising operator and option: convexity/monotonicity/bound invariants, Fourier-symbol metamorphic relation, buffer-history independence",
             "Brinkmann (all Eulerian variants + Lagrangian kernel) with penalty sequences incl. 0 and 2^40 and exact 0/1 "
             "indicators; characteristic function at +-blend +- ulps; damping widths 0..6 from the minimal extent; filters of "
-            "order 1..4 on constants/checkerboards/plane waves with zero vs poisoned work buffers.", "3/C19", ""),
+            "order 1..4 on constants/checkerboards/plane waves with zero vs poisoned work buffers; blend widths of the "
+            "characteristic function drawn per case.", "3/C19, 12", ""),
     "C20": (True, "Hypothesis differential test of each time-step kernel against a polynomial in the library's own flux kernel; exact-rational execution of the repo's wrappers through the IR interpreter",
             "Euler kernels == field + flux(field) and SSP-RK3 == (I+A+A^2/2+A^3/6) with A from the public flux kernel, for "
             "generated fields/velocities/steps/shapes/precisions; the same identities as exact equalities when the repo's "
-            "Python wrappers are run on Fraction arrays.", "3/C20", ""),
+            "Python wrappers are run on Fraction arrays; zero steps, long axes, memory layouts, and the kernels generated in a "
+            "fresh process after a drawn list of related generator calls.", "3/C20, 12", ""),
     "C06": (True, "Stratified Hypothesis over marker position classes (cell centres/faces +- ulps, clustered, duplicates) with moment-condition oracles on the real numba kernels",
             "Real support/weights/interpolation/spreading kernels driven as VirtualBoundaryForcing drives them; partition of unity, "
             "non-negativity, compact support, Peskin first moment, exact reproduction of constants/affine fields/the simulator's own "
-            "position_field.", "3/C06", ""),
+            "position_field; markers in the first/last admissible half cell of an axis, 640-marker sets, elongated grids.", "3/C06, 12", ""),
     "C07": (True, "Stratified Hypothesis: adjointness/force/torque invariants between the real interpolation and spreading kernels + independent numpy delta-function reference for accumulation",
             "Adjoint identity, total force, Peskin first moment, and accumulation over pre-filled targets / overlapping supports / "
             "repeated calls against an independent float64 reference.", "3/C07", ""),
     "C08": (True, "Stratified Hypothesis over all forcing-grid classes x generated poses/rods/forces: momentum, moment and power balance invariants; end-to-end balance through the real interaction classes; plus a libFuzzer (atheris) campaign per variant over the same generator and oracle, steered by branch coverage of the pure-Python repo modules",
             "Net force, net moment about a drawn point (nodal forces + lab-frame element couples) and power balance of "
             "transfer_forcing_from_grid_to_body for every grid class; fluid+body force balance through "
-            "ImmersedBodyFlowInteraction.__call__/compute_flow_forces_and_torques.", "3/C08", ""),
+            "ImmersedBodyFlowInteraction.__call__/compute_flow_forces_and_torques. Grid objects have a generated earlier life "
+            "(0-2 earlier body states with the per-evaluation calls), bodies re-posed / re-bound after grid construction.", "3/C08, 12", ""),
     "C09": (True, "Stratified Hypothesis over all forcing-grid classes: marker positions/velocities vs independent rigid-section kinematics, exact pose advance with Taylor-remainder bound; plus a libFuzzer (atheris) campaign per variant over the same generator and oracle, steered by branch coverage of the pure-Python repo modules",
             "Independent float64 kinematics reference (lab-frame angular velocity, mass-weighted element velocity, Rodrigues "
-            "pose advance) for every rigid-body and rod grid, incl. radius/cap-ratio geometry and bit-identity of the nodal grid.",
-            "3/C09", ""),
+            "pose advance) for every rigid-body and rod grid, incl. radius/cap-ratio geometry and bit-identity of the nodal grid; "
+            "same earlier-life histories of the grid object as C08.",
+            "3/C09, 12", ""),
     "C10": (True, "Hypothesis stateful machine (evaluate / body forces / time_step / move / change flow / consume forcing; 1-3 bodies sharing one field) against a Python model of the PI law",
             "Model-based testing of call histories on real ImmersedBodyFlowInteraction / RigidBodyFlowInteraction objects: after "
             "every rule the marker force, integral, mismatch, time and the shared Eulerian field equal the model; flow velocity and "
@@ -84,20 +99,25 @@ CHECKS = {
             "Generated families of 3-5 resolutions (2-D: 32..128, 3-D: 16..48) integrated with the simulator's own stable time step "
             "to a common final time; relative L2 error against the analytic solution must decrease monotonically, show a "
             "coarsest-to-finest order >= 1 - delta and stay below B(n) (delta, B calibrated from 240 generated families, "
-            "calibration/c02.json).", "3/C02",
+            "calibration/c02.json). Members may be off-palette sizes (nominal + 1..6 cells), structures weak (peak 1e-7) to strong.", "3/C02, 12",
             "Calibrated constants: a degradation that keeps ~first-order convergence and stays under 3x the calibrated error is not visible here."),
     "C14": (True, "Stratified Hypothesis: metamorphic commuting-diagram test between two real simulators related by a drawn element of the grid symmetry group",
             "State transformed by axis permutations and mirrors (vorticity as pseudo-scalar/vector, polar vectors with signs); a second "
             "simulator with the permuted grid takes the same step; results must commute within 512 eps S for every simulator class "
-            "and configuration.", "3/C14", ""),
+            "and configuration; dt optionally from both simulators' own stable-step query (which must agree).", "3/C14, 12", ""),
     "C17": (True, "Stratified Hypothesis over generated registries and raw bit-pattern contents (NaN payloads, inf, denormals): bit-exact round-trip, h5py layout oracle, rejection of tampered files; plus a libFuzzer (atheris) campaign per variant over the same generator and oracle, steered by branch coverage of the pure-Python repo modules",
             "IO, EulerianFieldIO and CosseratRodIO with generated names/grids/marker counts (incl. N == dim, field names repeated across "
             "grids, grids without fields): save leaves sources untouched, fresh objects reload bit-exactly, on-disk layout as documented, "
-            "missing datasets / differing grid parameters raise.", "3/C17", ""),
+            "missing datasets / differing grid parameters (on the reader's or the file's side, zero origin components) raise; file "
+            "histories: save() into an existing file name with the same or a reduced registry; name alphabets whose (grid, field) "
+            "pairs join to the same string.", "3/C17, 12", ""),
     "C18": (True, "Hypothesis over (configuration, checkpoint index) pairs: resumed run with poisoned scratch vs uninterrupted run (differential); generated checkpoint directories vs a model of the restart helper",
             "Coupled flow-body runs (2-D cylinder / 3-D sphere, all simulator options) checkpointed through the IO layer at a drawn "
             "step, resumed in fresh objects whose scratch arrays are poisoned, compared with the uninterrupted run; restart helper "
-            "on generated file sets (indices >= 10000, unrelated files, matching/mismatching PyElastica state).", "3/C18", ""),
+            "on generated file sets (indices >= 10000, unrelated files, matching/mismatching PyElastica state). Bodies: rigid "
+            "cylinder/sphere or a Cosserat rod with a drawn forcing-grid class; rolling checkpoints that overwrite earlier files "
+            "through long-lived or fresh IO objects; unstable couplings that leave the admissible domain are excluded and counted.",
+            "3/C18, 12", ""),
 }
 
 NOT_BUILT_REASON = "check not built yet (work in progress in this session; will be claimed once its generated check is registered)"
